@@ -191,9 +191,10 @@ pub struct W1Scenario {
     pub prop: &'static str,
 }
 
-fn allowed_features() -> gen::problem::Features {
+pub fn allowed_features() -> gen::problem::Features {
     let mut allowed = gen::problem::Features::all();
-    allowed.req_breaks = false; // reserved-time model is not part of the reference oracle
+    // required (reserved-time) breaks: the oracle judges bookkeeping and the time-independent rules of such tours only
+    allowed.req_breaks = std::env::var_os("VSIM_NO_REQ_BREAKS").is_none();
     allowed.clustering = true; // the oracle judges bookkeeping and the time-independent rules of clustered tours
     allowed.recharges = true;
     allowed.time_dependent = true;
@@ -241,6 +242,9 @@ impl W1Scenario {
         }
         if case.matrices.iter().any(|m| m.get("timestamp").is_some()) {
             sig.push("time-dependent");
+        }
+        if has_required_break(&case.problem) {
+            sig.push("required-break");
         }
         if case.problem["plan"].get("relations").is_some() {
             sig.push("relations");
@@ -318,6 +322,11 @@ impl W1Scenario {
         }
         rec
     }
+}
+
+/// True when some vehicle shift defines a required (reserved time) break.
+pub fn has_required_break(problem: &Value) -> bool {
+    problem["fleet"]["vehicles"].as_array().into_iter().flatten().flat_map(|v| v["shifts"].as_array().into_iter().flatten()).flat_map(|s| s.get("breaks").and_then(|b| b.as_array()).into_iter().flatten()).any(|b| b.get("places").is_none())
 }
 
 fn is_metric(matrices: &[Value]) -> bool {
